@@ -688,6 +688,105 @@ pub fn c09_run(run: &Run) {
             json!({"op": "c09.g2", "x": crate::api::jf2(x), "y": crate::api::jf2(y), "what": w})
         },
     );
+    c09_call_order(run);
+}
+/// one validating call on the G2 candidate (x, y) through entry point ep (0 AffineG2::new, 1 raw, 2 0x04, 3 compressed):
+/// Ok(()) iff the library's accept / reject answer is the reference's
+pub fn c09_validate_once(ep: u64, x: &F2, y: &F2) -> Result<(), Bad> {
+    let want = c09_ref_accepts(ep, x, y);
+    c09_compare(ep, x, y, want)
+}
+fn c09_bytes(ep: u64, x: &F2, y: &F2) -> (Fmt, Vec<u8>) {
+    let p = Pt::Aff(x.clone(), y.clone());
+    match ep {
+        1 => (Fmt::Raw, refmodel::g2_raw(&p).unwrap()),
+        2 => (Fmt::Uncompressed, refmodel::g2_uncompressed(&p).unwrap()),
+        _ => {
+            let mut cb = vec![if y.a.bit(0) { 3u8 } else { 2u8 }];
+            cb.extend(refmodel::f2_bytes(x));
+            (Fmt::Compressed, cb)
+        }
+    }
+}
+/// the reference's answer (accept?) for one validating call
+pub fn c09_ref_accepts(ep: u64, x: &F2, y: &F2) -> bool {
+    if ep == 0 {
+        let p = Pt::Aff(x.clone(), y.clone());
+        on_curve(&p, &refmodel::b2()) && in_g2(&p)
+    } else {
+        let (f, b) = c09_bytes(ep, x, y);
+        <G2 as GroupApi>::ref_decode(f, &b).is_some()
+    }
+}
+/// the library's answer compared with `want`
+pub fn c09_compare(ep: u64, x: &F2, y: &F2, want: bool) -> Result<(), Bad> {
+    let (name, got) = if ep == 0 {
+        ("AffineG2::new".to_string(), lib("AffineG2::new", || <G2 as GroupApi>::affine_new(x, y))?.is_ok())
+    } else {
+        let (f, b) = c09_bytes(ep, x, y);
+        (format!("G2 {} decoder", f.name()), lib("decode", || <G2 as GroupApi>::decode(f, &b))?.is_ok())
+    };
+    ensure!(got == want, if want { "rejects-member" } else { "accepts-non-member" }, "{} on ({}, {}): accepted={} , reference: {}", name, crate::api::jf2(x), crate::api::jf2(y), got, want);
+    Ok(())
+}
+/// hidden state across validations: every ordered pair of validating calls (entry point, candidate) executed back
+/// to back on ONE thread with nothing else running; each answer must be the reference's whatever came before
+/// (a memo of "the last point seen" that also remembers rejected points would accept them the second time)
+pub fn c09_call_order(run: &Run) {
+    let t0 = std::time::Instant::now();
+    let c = consts();
+    let s1 = ref_mul::<G2>(&n(1));
+    let tw = twist_points(1).pop().unwrap();
+    let small = ec_mul(&tw, &(&c.twist_order / n(13)));
+    let mut cands: Vec<(F2, F2, &'static str)> = vec![];
+    let mut add = |p: Pt<F2>, w: &'static str| {
+        if let Pt::Aff(x, y) = p {
+            cands.push((x, y, w));
+        }
+    };
+    add(s1.clone(), "subgroup point");
+    add(ref_mul::<G2>(&(r() - n(1))), "its negative");
+    add(tw.clone(), "twist point outside the subgroup");
+    add(small.clone(), "point of order dividing 13");
+    add(ec_add(&s1, &small), "subgroup point + small-order point");
+    if let Pt::Aff(x, y) = &s1 {
+        cands.push((x.clone(), y.add(&F2::one()), "off-curve (y+1)"));
+    }
+    let calls: Vec<(u64, usize)> = (0..4u64).flat_map(|ep| (0..cands.len()).map(move |i| (ep, i))).collect();
+    // the reference's answers are computed once per call; the sequences only run the library
+    let wants: Vec<bool> = calls.iter().map(|(ep, i)| c09_ref_accepts(*ep, &cands[*i].0, &cands[*i].1)).collect();
+    let mut n_seq = 0u64;
+    'outer: for (a, first) in calls.iter().enumerate() {
+        for (b, second) in calls.iter().enumerate() {
+            let _ = c09_compare(first.0, &cands[first.1].0, &cands[first.1].1, wants[a]);
+            let res = c09_compare(second.0, &cands[second.1].0, &cands[second.1].1, wants[b]);
+            n_seq += 1;
+            if let Err(mut e) = res {
+                e.class = format!("call-order:{}", e.class);
+                e.msg = format!("after validating the {} through entry point {}: [{}] {}", cands[first.1].2, first.0, cands[second.1].2, e.msg);
+                let (f, s2) = (*first, *second);
+                run.record_fail("c09.call-order", (a * calls.len() + b) as u64, e, || {
+                    json!({"op": "c09.callorder",
+                           "first": {"ep": f.0, "x": crate::api::jf2(&cands[f.1].0), "y": crate::api::jf2(&cands[f.1].1)},
+                           "second": {"ep": s2.0, "x": crate::api::jf2(&cands[s2.1].0), "y": crate::api::jf2(&cands[s2.1].1)}})
+                });
+                if run.fail_count() > 20 {
+                    break 'outer;
+                }
+            }
+        }
+    }
+    run.add_counts(n_seq, n_seq * 2, n_seq);
+    run.add_driver_summary(json!({"driver": "c09.call-order", "engine": "sequential grid (one thread, nothing else running)", "calls": calls.len(),
+        "ordered_pairs_of_calls": n_seq, "wall_s": t0.elapsed().as_secs_f64()}));
+    eprintln!("[C09] c09.call-order               cases={:<10} transitions={:<11} {:.1}s", n_seq, n_seq * 2, t0.elapsed().as_secs_f64());
+}
+pub fn c09_callorder_replay(c: &Value) -> Result<(), Bad> {
+    let g = |v: &Value| (v["ep"].as_u64().unwrap_or(0), crate::api::gf2(&v["x"]), crate::api::gf2(&v["y"]));
+    let (e1, x1, y1) = g(&c["first"]);
+    let (e2, x2, y2) = g(&c["second"]);
+    let _ = c09_validate_once(e1, &x1, &y1);
+    c09_validate_once(e2, &x2, &y2)
 }
 pub fn c09_meta(run: &Run) -> Meta {
     Meta {
@@ -695,7 +794,8 @@ pub fn c09_meta(run: &Run) -> Meta {
                (y+1, x+1, swapped, conjugate, points of curves with another b, points of E pushed into G2 and vice versa, every small x), \
                and for G2 the first twist points of a fixed enumeration, their cofactor-cleared multiples (accepted), their multiples of \
                order dividing 13, 1621, 13*1621, r*T, and subgroup point + small-order point. Oracle: curve equation and r*P = O with the \
-               reference's big-scalar multiplication; the twist order r(2q-r) is asserted on every twist point."
+               reference's big-scalar multiplication; the twist order r(2q-r) is asserted on every twist point. Hidden state: every ordered \
+               pair of validating calls (4 entry points x 6 candidates) back to back on one thread."
             .into(),
         engine: "sm9mc-grid".into(),
         bounds: json!({"twist_points": run.tier.pick(4, 128), "every_small_x_below": run.tier.pick(64, 8192)}),
@@ -712,6 +812,7 @@ pub fn replay(c: &Value) -> Result<(), Bad> {
         }
         "c08.fq2" => fq2_case(&gb(c, "bytes")).map(|_| ()),
         "c09.g1" => c09_g1_case(&mccore::gn(c, "x"), &mccore::gn(c, "y")).map(|_| ()),
+        "c09.callorder" => c09_callorder_replay(c),
         "c09.g2" => c09_g2_case(&crate::api::gf2(&c["x"]), &crate::api::gf2(&c["y"])).map(|_| ()),
         o => panic!("unknown op {}", o),
     }
